@@ -308,7 +308,7 @@ func TestC20_EnvelopeGrid(t *testing.T) {
 	}
 	// TF-M vectors
 	for _, f := range []string{"psa-2_0_0_mac0.bin", "psa-2_0_0_sign1.bin"} {
-		b, err := os.ReadFile("/repo/testvectors/tf-m/" + f)
+		b, err := os.ReadFile(repoDir() + "/testvectors/tf-m/" + f)
 		if err != nil {
 			st.Class("vector-missing")
 			continue
